@@ -99,8 +99,13 @@ def pSslOpt (s : String) : Option SslOpt :=
   | [c, k, f, p, h, x] =>
     let chk : Option (Option Bool) := if k == "~" then some none else (pBool k).map some
     match pCert c, chk, pOptStr f, pOptStr p, pOptStr h, pOptNat x with
-    | some c, some k, some f, some p, some h, some x => some ⟨c, k, f, p, h, x⟩
+    | some c, some k, some f, some p, some h, some x => some ⟨c, k, f, p, h, x, false⟩
     | _, _, _, _, _, _ => none
+  | [c, k, f, p, h, x, lg] =>
+    let chk : Option (Option Bool) := if k == "~" then some none else (pBool k).map some
+    match pCert c, chk, pOptStr f, pOptStr p, pOptStr h, pOptNat x, pBool lg with
+    | some c, some k, some f, some p, some h, some x, some lg => some ⟨c, k, f, p, h, x, lg⟩
+    | _, _, _, _, _, _, _ => none
   | _ => none
 
 /-- `bundle:isfile:isdir` -/
